@@ -384,11 +384,27 @@ func (f *flow) Start(ctx context.Context) {
 						effectiveFlows := make([]Snapshot, 0)
 						flowHandlers := make([]func(ctx context.Context), 0)
 
+						// An activity's default flow is taken only if none of its other
+						// outgoing flows is (gateways resolve their default themselves).
+						defaultIndex := -1
+						if activity, ok := source.(schema.ActivityInterface); ok {
+							if defaultRef, present := activity.Default(); present {
+								for i, sequenceFlow := range sequences {
+									if idPtr, ok := sequenceFlow.Id(); ok && *idPtr == *defaultRef {
+										defaultIndex = i
+									}
+								}
+							}
+						}
+
 						// The first sequence flow that is actually taken continues this flow,
 						// every further one forks a new flow. (If the first listed flow's
 						// condition is false, this flow must not stay behind at the source.)
 						continued := false
 						for i, sequenceFlow := range sequences {
+							if i == defaultIndex {
+								continue
+							}
 							if !continued {
 								if f.handleSequenceFlow(ctx, sequenceFlow, unconditional[i], a.actionTransformer, a.terminate) {
 									continued = true
@@ -401,6 +417,12 @@ func (f *flow) Start(ctx context.Context) {
 							if flowed {
 								effectiveFlows = append(effectiveFlows, Snapshot{sequenceFlow: sequenceFlow, flowId: flowId})
 								flowHandlers = append(flowHandlers, flowHandler)
+							}
+						}
+
+						if defaultIndex >= 0 && len(effectiveFlows) == 0 {
+							if f.handleSequenceFlow(ctx, sequences[defaultIndex], true, a.actionTransformer, a.terminate) {
+								effectiveFlows = append(effectiveFlows, Snapshot{sequenceFlow: sequences[defaultIndex], flowId: f.Id()})
 							}
 						}
 
